@@ -5,6 +5,7 @@
 From Coq Require Import ZArith List Bool.
 Import ListNotations.
 From Sunrise Require Export Amm.AmmCheck Amm.Fees.
+From Sunrise Require Import Amm.LiqDefs.
 Local Open Scope Z_scope.
 
 Record c06_case := {
@@ -189,6 +190,65 @@ Definition mon_pro_rata (c : c06_case) : bool :=
   | _, _ => true
   end.
 
+(* 10. step-wise pro-rata reference for swaps.  The fee of every trade step belongs to the liquidity
+       that was in range DURING the step, pro rata.  The steps of the swap (cursor, fee charged) are
+       recomputed from the observed pre-state with the swap-step arithmetic alone (prices, amounts,
+       fee of each bucket step): no accumulator and no per-tick fee growth enter the reference, and
+       the liquidity a step's fee is shared among is the sum over the observed positions whose range
+       contains the step's cursor.  For every
+       position the growth it should see is  G = sum over the steps taken while it was in range of
+       QuoTruncate(step fee, in-range liquidity), and GetClaimableFees must have risen by
+       d coins of the input denom with   G*l/1e36 - 1 - 1e-18 < d < G*l/1e36 + 1 + 1e-18
+       (one rounding of the product with the liquidity l, one truncation of the payout before and
+       after), and by nothing in the other denoms. *)
+Fixpoint ghost_steps (fuel : nat) (ei b4q : bool) (fee limit : Z) (tp : tick_params) (din : Z)
+         (iter : list tick) (st : swap_state) : list (Z * Z) :=
+  match fuel with
+  | O => []
+  | S f =>
+    match loop_iter ei b4q false fee limit tp vzero din iter st with
+    | Ok (ItNext iter' st' _ _ fc _) => (ss_tick st, fc) :: ghost_steps f ei b4q fee limit tp din iter' st'
+    | _ => []
+    end
+  end.
+Definition swap_ghost_steps (s : amm) (ei : bool) (din specified : Z) : list (Z * Z) :=
+  let p := a_pool s in
+  let b4q := din =? 0 in
+  match sqrt_price_limit (if b4q then MIN_MULT_SPOT else MAX_MULT_SPOT) b4q with
+  | Ok limit =>
+    let iter := iter_ticks b4q (a_ticks s) (p_tick p) in
+    ghost_steps (length iter + 300) ei b4q (p_fee p) limit (p_tp p) din iter
+      {| ss_remaining := dec_of_int specified; ss_calculated := 0; ss_sqrt := p_sqrt p; ss_tick := p_tick p;
+         ss_liq := p_liq p; ss_growth := 0; ss_fees := 0; ss_ticks := a_ticks s; ss_noprog := 0 |}
+  | _ => []
+  end.
+(* growth per unit of liquidity a position with range [lo,up) should have seen *)
+Definition ref_growth (ps : list position) (steps : list (Z * Z)) (lo up : Z) : Z :=
+  fold_right (fun '(c, fc) acc =>
+    if (lo <=? c) && (c <? up)
+    then (let L := active ps c in if L <=? 0 then acc else Z.quot (fc * P) L + acc)
+    else acc) 0 steps.
+Definition mon_swap_pro_rata (c : c06_case) : bool :=
+  let a := k_amm c in
+  match c_op a, c_res a with
+  | OSwap ei di _ sp, Ok _ =>
+      let ps := a_positions (c_pre a) in
+      let steps := swap_ghost_steps (c_pre a) ei di sp in
+      forallb (fun p =>
+        match lookup (k_cl_pre c) (pos_id p), lookup (k_cl_post c) (pos_id p) with
+        | Some (Ok v0), Some (Ok v1) =>
+            let g := ref_growth ps steps (pos_lower p) (pos_upper p) in
+            let l := pos_liq p in
+            forallb (fun j =>
+               let d := vget v1 j - vget v0 j in
+               if j =? di
+               then ((d - 1) * P * P <=? g * l + P) && (g * l <=? (d + 1) * P * P + P)
+               else d =? 0) [0; 1; 2; 3]
+        | _, _ => true
+        end) ps
+  | _, _ => true
+  end.
+
 Definition c06_check (c : c06_case) : list Z :=
   flag 0 (corr6 c) ++
   flag 1 (mon_backing c) ++
@@ -200,6 +260,7 @@ Definition c06_check (c : c06_case) : list Z :=
   flag 7 (mon_fee_rate c) ++
   flag 8 (mon_pro_rata c) ++
   flag 9 (fee_wf_b (c_pre (k_amm c)) && fee_wf_b (c_post (k_amm c)) &&
-          vnonnegb (a_acc_value (c_pre (k_amm c))) && vnonnegb (a_acc_value (c_post (k_amm c)))).
+          vnonnegb (a_acc_value (c_pre (k_amm c))) && vnonnegb (a_acc_value (c_post (k_amm c)))) ++
+  flag 10 (mon_swap_pro_rata c).
 
 Definition run := run_cases c06_check.
